@@ -92,18 +92,146 @@ void family_mutex() {
     for (auto &t : th) t.join();
     if (s.a != total || s.b != 2 * total) dsim::fail("C03.payload", "mutex-protected counters are %ld/%ld, expected %ld/%ld", s.a, s.b, total, 2 * total);
 }
-} // namespace
 
-void family_queue();
-void family_pool();
-void family_scheduler();
-void family_publisher();
-void family_storage();
+// ------------------------------------------------------------------ family C: awaitable queues carry payloads between threads
+struct Msg { long a, b, c; long check() const { if (b != a * 2 || c != a * 3) dsim::fail("C03.payload", "torn message %ld/%ld/%ld", a, b, c); return a; } };
+cocls::async<void> q_consumer(cocls::queue<Msg> &q, int n) { for (int i = 0; i < n; i++) { Msg m = co_await q.pop(); m.check(); dsim::cell_add(SUM, m.a); } }
+cocls::async<void> lq_consumer(cocls::limited_queue<Msg> &q, int n) { for (int i = 0; i < n; i++) { Msg m = co_await q.pop(); m.check(); dsim::cell_add(SUM, m.a); } }
+void family_queue() {
+    int np = 1 + dsim::choose(2), nc = 1 + dsim::choose(2), per = 1 + dsim::choose(3); bool limited = dsim::flip(); int ck[2] = {(int)dsim::choose(2), (int)dsim::choose(2)};
+    dsim::plan_note("queue: producers=%d consumers=%d per=%d limited=%d", np, nc, per, (int)limited);
+    int total = np * per; long expect = 0;
+    std::vector<std::thread> th;
+    if (!limited) {
+        cocls::queue<Msg> q;
+        for (int p = 0; p < np; p++) th.emplace_back([&q, p, per] { for (int i = 0; i < per; i++) { long v = p * 100 + i + 1; q.push(Msg{v, v * 2, v * 3}); } (void)q.size(); (void)q.empty(); });
+        int given = 0;
+        for (int c = 0; c < nc; c++) { int n = c == nc - 1 ? total - given : total / nc; given += n; th.emplace_back([&q, n, k = ck[c]] { if (k) q_consumer(q, n).join(); else for (int i = 0; i < n; i++) { auto f = q.pop(); Msg m = f.wait(); m.check(); dsim::cell_add(SUM, m.a); } }); }
+        for (auto &t : th) t.join();
+    } else {
+        cocls::limited_queue<Msg> q(1 + dsim::choose(2));
+        for (int p = 0; p < np; p++) th.emplace_back([&q, p, per] { for (int i = 0; i < per; i++) { long v = p * 100 + i + 1; auto f = q.push(Msg{v, v * 2, v * 3}); f.wait(); } (void)q.size(); });
+        int given = 0;
+        for (int c = 0; c < nc; c++) { int n = c == nc - 1 ? total - given : total / nc; given += n; th.emplace_back([&q, n, k = ck[c]] { if (k) lq_consumer(q, n).join(); else for (int i = 0; i < n; i++) { auto f = q.pop(); Msg m = f.wait(); m.check(); dsim::cell_add(SUM, m.a); } }); }
+        for (auto &t : th) t.join();
+    }
+    for (int p = 0; p < np; p++) for (int i = 0; i < per; i++) expect += p * 100 + i + 1;
+    if (dsim::cell_get(SUM) != expect) dsim::fail("C03.payload", "queue delivered payload sum %ld, expected %ld", dsim::cell_get(SUM), expect);
+}
+
+// ------------------------------------------------------------------ family D: thread pool
+cocls::async<long> pool_coro(cocls::thread_pool &pool, long *in, long *out) {
+    long v = *in;                 // written by the submitting thread before submission
+    try { co_await pool; *out = v * 2; } catch (const cocls::await_canceled_exception &) { *out = -1; }
+    co_return v + 1;
+}
+void family_pool() {
+    int nw = 1 + dsim::choose(2), nj = 1 + dsim::choose(3); int stop_mode = dsim::choose(3);
+    dsim::plan_note("pool: workers=%d jobs=%d stop_mode=%d", nw, nj, stop_mode);
+    long in[3] = {0, 0, 0}, out[3] = {0, 0, 0}, out2[3] = {0, 0, 0};
+    {
+        cocls::thread_pool pool(nw);
+        std::vector<std::thread> th;
+        for (int j = 0; j < nj; j++) th.emplace_back([&pool, j, pin = &in[j], pout = &out[j], pout2 = &out2[j]] {
+            *pin = 10 + j;
+            if (j % 2 == 0) {
+                auto f = pool.run([pin, pout] { *pout = *pin * 3; return *pin; });
+                try { long r = f.wait(); if (r != 10 + j || *pout != (10 + j) * 3) dsim::fail("C03.payload", "pool.run result %ld out %ld", r, *pout); } catch (const cocls::await_canceled_exception &) {}
+            } else {
+                auto f = pool_coro(pool, pin, pout2).start();
+                long r = f.wait(); if (r != 11 + j || (*pout2 != (10 + j) * 2 && *pout2 != -1)) dsim::fail("C03.payload", "pool coroutine result %ld out %ld", r, *pout2);
+            }
+        });
+        std::thread stopper;
+        if (stop_mode == 1) stopper = std::thread([&pool] { pool.stop(); });
+        if (stop_mode == 2) { (void)pool.is_stopped(); (void)pool.any_enqueued(); }
+        for (auto &t : th) t.join();
+        if (stopper.joinable()) stopper.join();
+    }
+}
+
+// ------------------------------------------------------------------ family E: scheduler (thread mode): schedule / cancel from other threads
+void family_scheduler() {
+    int n = 1 + dsim::choose(3); bool cancel = dsim::flip();
+    dsim::plan_note("scheduler: sleepers=%d cancel=%d", n, (int)cancel);
+    std::thread thr;
+    {
+        cocls::scheduler sch(thr);
+        static char tags[4];
+        long data[3] = {0, 0, 0};
+        std::vector<std::thread> th;
+        for (int i = 0; i < n; i++) th.emplace_back([&sch, i, d = &data[i]] {
+            *d = 100 + i;
+            auto f = sch.sleep_for(std::chrono::milliseconds(1 + i), &tags[i]);
+            try { f.wait(); } catch (const cocls::await_canceled_exception &) {}
+            if (*d != 100 + i) dsim::fail("C03.payload", "sleeper data changed");
+            dsim::cell_add(DONE, 1);
+        });
+        std::thread c;
+        if (cancel) c = std::thread([&sch] { (void)(bool)sch.cancel(&tags[0]); });
+        for (auto &t : th) t.join();
+        if (c.joinable()) c.join();
+    }
+    thr.join();
+}
+
+// ------------------------------------------------------------------ family F: publisher thread against subscriber threads
+// (no co_await inside a loop condition: g++ 12 miscompiles that form)
+cocls::async<void> sub_coro(cocls::subscriber<Msg> &s) { for (;;) { bool ok = co_await s.next(); if (!ok) break; dsim::cell_add(SUM, s.value().check() > 0 ? 1 : 0); } }
+void family_publisher() {
+    int ns = 1 + dsim::choose(2), np = 1 + dsim::choose(4); int kind[2] = {(int)dsim::choose(2), (int)dsim::choose(2)};
+    dsim::plan_note("publisher: subscribers=%d publishes=%d", ns, np);
+    cocls::publisher<Msg> pub(4, 1);
+    std::vector<std::thread> th;
+    for (int i = 0; i < ns; i++) th.emplace_back([&pub, i, k = kind[i]] {
+        cocls::subscriber<Msg> s(pub);
+        dsim::cell_add(OBS + 8, 1);
+        if (k) sub_coro(s).join(); else while (s.next()) { s.value().check(); dsim::cell_add(SUM, 1); }
+    });
+    std::thread pt([&pub, np, ns] {
+        for (long k = 1; k <= np; k++) pub.publish(Msg{k, k * 2, k * 3});
+        dsim::wait_cell(OBS + 8, ns);       // nobody inside subscribe() when the stream is closed (schedule constraint only)
+        pub.close();
+    });
+    pt.join();
+    for (auto &t : th) t.join();
+}
+
+// ------------------------------------------------------------------ family G: thread-safe reusable storage shared by two threads
+cocls::with_allocator<cocls::reusable_storage_mtsafe, cocls::async<long>> stor_coro(cocls::reusable_storage_mtsafe &, long v, cocls::future<void> *gate) {
+    long local[6]; for (int i = 0; i < 6; i++) local[i] = v + i;
+    if (gate) co_await *gate;
+    long s = 0; for (int i = 0; i < 6; i++) s += local[i];
+    co_return s;
+}
+void family_storage() {
+    int rounds = 1 + dsim::choose(3); bool susp = dsim::flip();
+    dsim::plan_note("storage: rounds=%d suspend=%d", rounds, (int)susp);
+    cocls::reusable_storage_mtsafe st;
+    std::thread th[2];
+    for (int t = 0; t < 2; t++) th[t] = std::thread([&st, t, rounds, susp] {
+        for (int r = 0; r < rounds; r++) {
+            cocls::future<void> gate; cocls::promise<void> gp; if (susp) gp = gate.get_promise();
+            long v = 100 * (t + 1) + r;
+            auto f = stor_coro(st, v, susp ? &gate : nullptr).start();
+            if (susp) gp();
+            long got = f.wait();
+            if (got != 6 * v + 15) dsim::fail("C03.payload", "frame on shared storage returned %ld", got);
+        }
+    });
+    for (auto &t : th) t.join();
+}
+} // namespace
 
 void dsim_scenario() {
     dsim::config().race_is_violation = true;
-    switch (dsim::choose(2)) {
+    switch (dsim::choose(7)) {
     case 0: family_future(); break;
-    default: family_mutex(); break;
+    case 1: family_mutex(); break;
+    case 2: family_queue(); break;
+    case 3: family_pool(); break;
+    case 4: family_scheduler(); break;
+    case 5: family_publisher(); break;
+    default: family_storage(); break;
     }
 }
